@@ -186,8 +186,9 @@ def check(pid, tier, seed):
             return 3
         selftest_cases = int((st.stdout.strip().splitlines() or ['0'])[-1].split()[-1])
 
-        # --- representative concrete traces
+        # --- representative concrete traces (a failing one is a concrete violation in itself)
         traces = 0
+        rep_failed = {}
         reps = [p for p in parts if p.rep is not None and p.expect == 'confirmed']
         with cf.ThreadPoolExecutor(max_workers=JOBS) as ex:
             futs = {ex.submit(replay, p, p.rep, workdir, None, 'rep'): p for p in reps}
@@ -195,17 +196,22 @@ def check(pid, tier, seed):
                 p = futs[fut]
                 r = fut.result()
                 traces += 1
-                if not r or r.get('ok') is not True:
-                    known = any(_eval_expr(e, p.rep) for e in p.exclude)
-                    if not known:
-                        harness_errors.append('representative input of %s does not pass concretely: %s'
-                                              % (p.name, r))
+                if r and r.get('ok') is True:
+                    continue
+                if r and r.get('ok') is False:
+                    if not any(_eval_expr(e, p.rep) for e in p.exclude):
+                        rep_failed[p.name] = r
+                else:
+                    harness_errors.append('representative input of %s could not be run: %s'
+                                          % (p.name, r))
 
         # --- verdicts
         exhausted = 0
         inconclusive = []
         n_cex = 0
         for p in parts:
+            if p.expect == 'refuted':
+                pass
             r = results[p.name]
             s = r['status']
             if p.expect == 'refuted':
@@ -213,6 +219,21 @@ def check(pid, tier, seed):
                     exhausted += 1
                 else:
                     harness_errors.append('vacuity twin %s was not refuted (%s)' % (p.name, s))
+                continue
+            if p.name in rep_failed and not (s == 'REFUTED' and r.get('cex')):
+                # the symbolic run did not refute, but the authored representative input fails on the
+                # real code: report it (and flag the disagreement)
+                n_cex += 1
+                rp = os.path.join(replay_dir, '%s-%d.json' % (pid, n_cex))
+                with open(rp, 'w') as f:
+                    json.dump({'property': pid, 'partition': p.name, 'bound': p.bound,
+                               'args': p.rep, 'tz_replay': p.tz_replay,
+                               'observed_concrete': rep_failed[p.name].get('observed'),
+                               'source': p.source()}, f, indent=1)
+                lines.append('VIOLATION property=%s replay=%s' % (pid, rp))
+                lines.append('  partition=%s representative input fails concretely: %s (symbolic status %s)'
+                             % (p.name, rep_failed[p.name].get('observed'), s))
+                violations += 1
                 continue
             if s == 'CONFIRMED':
                 if r.get('reach', 0) + r.get('rejected', 0) <= 0:
